@@ -38,6 +38,16 @@ pub fn run_prop(ctx: &Ctx, sink: &mut Sink) {
             // the path printed for the starting point itself must be the operand as given
             let roots: Vec<(Vec<u8>, String)> = (0..rng.range(1, 2)).map(|_| sc.roots[rng.below(8)].clone()).collect();
             let flag = *rng.pick(&["P", "P", "L", "H"]);
+            // the usual idioms in front of the action: `-name N -prune -o -print0` (the action in one alternative
+            // of -o only: nothing else may be printed, by a default -print, say) and `-type f`
+            match rng.below(6) {
+                0 => {
+                    let nm: Vec<u8> = sc.names.iter().find(|n| n.is_ascii() && !n.contains(&b'\n')).cloned().unwrap_or(b"a".to_vec());
+                    toks.extend([crate::fexpr::name_tok(&nm), "prune".into(), "o".into()]);
+                }
+                1 => toks.push("type:f".into()),
+                _ => {}
+            }
             if ci % 3 == 2 {
                 // find … -print0 | xargs -0 recorder
                 toks.push("print0".into());
